@@ -1,6 +1,6 @@
 (* C06 — receiver memory stays within max_receive_alloc; senders respect it. Statements only. *)
 From Coq Require Import ZArith Lia ZifyBool ZifyN ZifyNat.
-From UF Require Import Consts Base Frame Sender Receiver SenderProofs ReceiverProofs.
+From UF Require Import Consts Base Frame Sender Receiver HalfConn SenderProofs ReceiverProofs HcTotal HcLevel.
 
 (* Receiver half: for EVERY stream of datagrams (hostile ones included: any ids, any claimed fragment
    counts, never completing), reads and resynchronisation requests, the allocation counter is the sum of
@@ -38,6 +38,22 @@ Proof.
   unfold s in *. repeat split; try assumption; lia.
 Qed.
 Print Assumptions C06_send_bounds.
+
+(* The same at the level of the HalfConnection: in EVERY state reached by ANY sequence of send / receive / step /
+   flush / frame operations (frames with any contents), receive memory is within the limit, and the send side
+   keeps the fragment-rounded bytes outstanding within the peer's limit and the window within its size. *)
+Theorem C06_half_connection_recv_bounded :
+  forall c seed ops, 0 < cfg_rx_packet_window c ->
+    let h := fold_left hc_apply ops (hc_new c seed) in
+    r_alloc (h_rcv h) <= ceil_frag_r (cfg_rx_alloc_limit c) /\ RWf (h_rcv h).
+Proof. exact hc_recv_alloc_bounded. Qed.
+Print Assumptions C06_half_connection_recv_bounded.
+
+Theorem C06_half_connection_send_bounded :
+  forall c seed ops, cfg_ok c -> Forall op_ok ops ->
+    let h := fold_left hc_apply ops (hc_new c seed) in
+    s_alloc (h_snd h) <= s_max_alloc (h_snd h) /\ len (s_win (h_snd h)) <= s_wsize (h_snd h).
+Proof. intros c seed ops Hc Ho h. destruct (hc_send_buffer_exact c seed ops Hc Ho) as (_ & _ & A & B). split; assumption. Qed.
 
 (* both sides round the limit the same way, and the sender's per-packet charge is what the receiver charges
    for the packet's first datagram *)
